@@ -30,6 +30,9 @@ RELATIVE_SCHEME_DEFAULT_PORTS = {
 C0_CONTROL_SET = frozenset(chr(i) for i in range(0, 0x1f + 1))
 '''Characters from 0x00 to 0x1f inclusive'''
 
+PRINTABLE_ASCII = ''.join(chr(i) for i in range(0x20, 0x7f))
+'''Characters from 0x20 to 0x7e inclusive'''
+
 DEFAULT_ENCODE_SET = frozenset(b' "#<>?`')
 '''Percent encoding set as defined by WHATWG URL living standard.
 
@@ -130,8 +133,8 @@ class URLInfo(object):
         if frozenset(url) & C0_CONTROL_SET:
             raise ValueError('URL contains control codes: {}'.format(ascii(url)))
 
-        if 'a+/'.encode(encoding) != b'a+/':
-            # UTF-16, UTF-7, EBCDIC...: percent-encoding with such a codec
+        if PRINTABLE_ASCII.encode(encoding) != PRINTABLE_ASCII.encode('ascii'):
+            # UTF-16, UTF-7, EBCDIC, HZ...: percent-encoding with such a codec
             # rewrites the ASCII of the URL itself. Use UTF-8 as browsers do.
             encoding = 'utf-8'
 
